@@ -195,6 +195,22 @@ def _scribble(F, f):
         f.any.append(b"scribble")
 
 
+def _grow(F, f):
+    """append a member to every and/or list and every substrings 'any' list; -> changed anything"""
+    n = type(f).__name__
+    if n in ("FilterAnd", "FilterOr"):
+        for x in list(f.filters):
+            _grow(F, x)
+        f.filters.append(F.FilterPresent("zz"))
+        return True
+    if n == "FilterNot":
+        return _grow(F, f.filter)
+    if n == "FilterSubstrings":
+        f.any.append(b"zz")
+        return True
+    return False
+
+
 def body(ctx, shape):
     F = ctx.L.filter
     g = G(ctx, shape)
@@ -228,3 +244,11 @@ def body(ctx, shape):
     ctx.require(ctx.eq(f3, f), "second-parse-of-the-same-text-differs")
     if len(text) <= 60:
         ctx.require(relang.member(ctx, text, shape_regex(shape["spec"])), "text-form-not-rfc4515")
+    # the tree is the caller's and its member lists are mutable: after a change the text form has
+    # to follow (a text computed earlier must not be handed out again)
+    if _grow(F, f):
+        try:
+            f5 = F.LDAPFilter.from_string(ctx.text(f))
+        except Exception as e:  # noqa: BLE001
+            ctx.fail("text-form-of-the-changed-tree-rejected", f"{type(e).__name__}@{exc_site(e)}")
+        ctx.require(ctx.eq(f5, f), "text-form-does-not-follow-a-change-of-the-tree")
